@@ -169,6 +169,8 @@ def judge_monitors(mon, out):
                 rows = len(v)
                 if rows == 0 or any(len(a) != rows for a in P.values()):
                     continue
+                if any(v_ not in P for v_ in G.free_vars(node)):
+                    continue
                 if G.is_boundary(node) or "pt" in G.kinds(node):
                     d = G.dev(node, P)
                     far = d > G.TOL_FAR
@@ -188,14 +190,20 @@ def judge_monitors(mon, out):
                         out.append(viol("C05", "monitor-membership", "wrong-answer", node["k"],
                                         margin=float(m[i]), answer=float(v[i]), row=i, node=node["k"]))
             else:
-                rows = max(1, max([len(a) for a in P.values()] or [1]))
+                lens = {len(a) for a in P.values()}
+                if len(lens) > 1:
+                    continue
+                rows = max(1, max(lens or [1]))
+                if any(v_ not in P for v_ in G.free_vars(node)):
+                    continue
                 mu = G.measure(node, P, rows)
                 if mu is None:
                     continue
                 v = val.reshape(-1).double().numpy()
                 n_vol += 1
-                if len(v) != rows and not (len(v) == 1 and rows == 1):
-                    if not (len(v) == 1 and not G.free_vars(node)):
+                if len(v) != rows:
+                    # a measure that does not depend on the parameters may come back as one row
+                    if not (len(v) == 1 and np.ptp(mu) <= 1e-12 * max(1.0, abs(float(mu[0])))):
                         out.append(viol("C10", "monitor-volume", "rows", node["k"], got=len(v), want=rows))
                         continue
                     mu = mu[:1]
@@ -228,8 +236,8 @@ def run_entry(case, sim, mon=None):
     pts = None
     for _ in range(int(e.get("calls", 1))):
         sim.begin_op()
-        if e["cls"].startswith("Adaptive") and pts is not None:
-            loss = torch.linspace(0, 1, len(pts))
+        if e["cls"].startswith("Adaptive"):
+            loss = None if pts is None else torch.linspace(0, 1, len(pts))
             pts = sampler.sample_points(unreduced_loss=loss, params=params)
         else:
             pts = sampler.sample_points(params)
@@ -377,8 +385,13 @@ def run_case(case, props=("C01", "C02", "C05", "C10", "C18"), monitors=True):
             out.append(viol("C01", "termination", "draw-budget-exceeded", innermost_site(ex.__traceback__),
                             msg=str(ex)[:160]))
         except Exception as ex:
-            out.append(viol("C01", "call", "raises:" + type(ex).__name__, innermost_site(ex.__traceback__),
-                            msg=str(ex)[:200]))
+            site = innermost_site(ex.__traceback__)
+            if site.endswith("_check_iteration_number") and isinstance(ex, RuntimeError) and case.get("fault"):
+                # documented give-up after 20 empty filter rounds; under adversarial draws
+                # (every proposal on a lattice / constant) the filter may really accept nothing
+                stats["documented_giveup"] = 1
+            else:
+                out.append(viol("C01", "call", "raises:" + type(ex).__name__, site, msg=str(ex)[:200]))
         finally:
             if mon:
                 mon.detach()
